@@ -257,6 +257,13 @@ def gen_case(rng, tier):
             for k in [k for k in m["reward"] if k.startswith("%d,%d," % (s, a))]:
                 m["reward"].pop(k)
         m["actions"][s] = []
+    # actions(s) listing an action twice (assignment, not accumulation, fills the arrays)
+    if not uniform and rng.random() < .08:
+        cand = [s for s in range(n) if m["actions"][s]]
+        if cand:
+            s = rng.choice(cand)
+            m["actions"][s] = list(m["actions"][s])
+            m["actions"][s].insert(rng.randint(0, len(m["actions"][s])), rng.choice(m["actions"][s]))
     skind = rng.choice(["int", "int", "str", "tup", "tup_is", "fd", "mixed", "mixed", "mixed"])
     akind = rng.choice(["int", "str", "str", "tup", "fd", "mixed", "mixed"])
     case = {"mdp": m, "slabels": gen_labels(rng, n, skind), "alabels": gen_labels(rng, nA, akind),
@@ -780,6 +787,7 @@ def run(ctx):
              "abs_out": case["abs_out"], "quick_variant": bool(case["qv"]),
              "states_sortable": bool(v[1][2]), "actions_sortable": bool(v[1][5]),
              "dead_end": any(len(a) == 0 for a in case["mdp"]["actions"]),
+             "repeated_action": any(len(set(a)) != len(a) for a in case["mdp"]["actions"]),
              "skind_" + case["skind"]: True, "akind_" + case["akind"]: True}
         f.update({k: x for k, x in gen_mdp.features(case["mdp"]).items() if isinstance(x, bool)})
         for k, x in f.items():
@@ -788,7 +796,7 @@ def run(ctx):
         "evaluations": len(idx),
         "distinct_nontrivial": len(distinct),
         "rule": "functional MDPs from harness/gen_mdp.py (1..%d states, 1..3 actions, k/8 probabilities, zero-probability entries in "
-                "next-state and initial distributions, rewards on zero-probability successors, explicit/implicit absorbing states, dead ends, "
+                "next-state and initial distributions, rewards on zero-probability successors, explicit/implicit absorbing states, dead ends, actions listed twice, "
                 "gamma in {1/2..19/20, 1}) relabelled with ints / strings / int tuples / (int,str) tuples / frozendicts / nested mixed tuples "
                 "(sortable and unsortable sets), explicit (shuffled, with unreachable states) or inferred state and action lists, 1-3 "
                 "max_states cut-offs in 0..n+1, constant/deterministic QuickMDP argument variants; %s; distinct = structural hash of (MDP, labels, "
